@@ -85,4 +85,85 @@ theorem compatible_snap_history (row : Row) (hcompat : Compatible row = true) (v
   exact replyRecord_take row.scanName (kindOf row.cmd) r vpn f (by rw [compatible_minCapture row hcompat]; exact hn) hn'
     (hw f hf)
 
+/-! ### from the wire: the kernel's VLAN untagging in front of the socket -/
+
+/-- a frame whose ethertype is neither IPv4 nor ARP has no reply shape on an Ethernet socket -/
+theorem replyRecord_other_ethertype (name : String) (k : Kind) (r : Range) {vpn : Bool} {f : Bytes} {et : Nat}
+    (hv : k = .arp ∨ vpn = false) (het : u16 f 12 = some et) (h4 : et ≠ 0x0800) (h6 : et ≠ 0x0806) :
+    replyRecord name k r vpn f = none := by
+  have hoff : ipOffset false f = none := by
+    unfold ipOffset
+    simp [het, h4]
+  unfold replyRecord ReplyShape WellFormedUnfragmented Shape
+  cases k with
+  | arp =>
+    have : arpChain f = none := by
+      unfold arpChain
+      simp [het, h6]
+    simp [this]
+  | tcp s =>
+    rcases hv with hv | rfl
+    · cases hv
+    · have : tcpChain false f = none := by unfold tcpChain; simp [hoff]
+      simp [this]
+  | icmp =>
+    rcases hv with hv | rfl
+    · cases hv
+    · have : icmpChain false f = none := by unfold icmpChain; simp [hoff]
+      simp [this]
+
+/-- on an Ethernet socket a compatible row either scans ARP or runs without vpn mode -/
+theorem compatible_ethernet (row : Row) (hcompat : Compatible row = true) {vpn : Bool}
+    (hm : linkOf row vpn = .ethernet) : kindOf row.cmd = .arp ∨ vpn = false := by
+  obtain ⟨cmd, scanName, proc, bpf, pktFilter, pktFlags, engine, bpfVpn, procVpn⟩ := row
+  unfold Compatible at hcompat
+  unfold linkOf at hm
+  simp only at hcompat hm ⊢
+  cases hk : kindOf cmd with
+  | arp => exact .inl rfl
+  | tcp syn =>
+    simp only [hk, Bool.and_eq_true, beq_iff_eq] at hcompat
+    obtain ⟨⟨-, hb⟩, -⟩ := hcompat
+    right
+    cases vpn
+    · rfl
+    · simp [hb] at hm
+  | icmp =>
+    simp only [hk, Bool.and_eq_true, beq_iff_eq] at hcompat
+    obtain ⟨⟨-, hb⟩, -⟩ := hcompat
+    right
+    cases vpn
+    · rfl
+    · simp [hb] at hm
+
+/-- **end to end from the wire**: kernel receive path (VLAN tag removed and kept aside), filter, cut to the capture
+    length, `ReadPacketData` skipping tagged frames, processor — exactly the reply record of the frame on the wire -/
+theorem compatible_wire (row : Row) (hcompat : Compatible row = true) (vpn : Bool) {r : Range}
+    (hr : RangeOK r = true) (st : State) (f : Bytes) {n : Nat} (hn : minCapture row.bpf ≤ n) (hn' : n ≤ 65535)
+    (hw : offloadWrap (kindOf row.cmd) vpn f = false) :
+    ∃ scan, scanOf row vpn = some scan ∧
+      reportedWire true (filterOf row.bpf r) (linkOf row vpn) n scan st f =
+        replyRecord row.scanName (kindOf row.cmd) r vpn f := by
+  obtain ⟨scan, hs, he⟩ := compatible_snap row hcompat vpn hr st f hn hn' hw
+  refine ⟨scan, hs, ?_⟩
+  unfold reportedWire kernelRx
+  cases hm : linkOf row vpn with
+  | rawIPv4 =>
+    rw [hm] at he
+    simpa using he
+  | ethernet =>
+    rw [hm] at he
+    by_cases ht : u16 f 12 = some 0x8100 ∨ u16 f 12 = some 0x88a8
+    · have hnone : replyRecord row.scanName (kindOf row.cmd) r vpn f = none := by
+        rcases ht with ht | ht
+        · exact replyRecord_other_ethertype _ _ r (compatible_ethernet row hcompat hm) ht (by decide) (by decide)
+        · exact replyRecord_other_ethertype _ _ r (compatible_ethernet row hcompat hm) ht (by decide) (by decide)
+      rw [hnone]
+      simp only [ht, if_true]
+      by_cases hl : f.length < 20
+      · simp only [hl, if_true]
+      · simp only [hl, if_false, Bool.and_self, if_true]
+    · simp only [ht, if_false]
+      simpa using he
+
 end SxVerif.Proofs.Snap
